@@ -319,3 +319,73 @@ func (e *Ev) evReplaceFunc(x *ast.CallExpr, rv VRegex) Val {
 	}
 	return fx.freshStr("replaced")
 }
+
+// verifyClosure checks the body of a function literal against its "closure N" block: parameters are
+// arbitrary values (constrained by the block's requires), captured variables have the values they
+// have where the literal is written (literals that assign captured variables are refused), every
+// return must satisfy the block's ensures. Callers of the function value learn nothing from this:
+// the value is passed on as an opaque function.
+func (e *Ev) verifyClosure(lit *ast.FuncLit, cc *Contract, ord int) {
+	fx := e.fx
+	sig := e.info.TypeOf(lit).(*types.Signature)
+	ex := &Exec{fx: fx, info: e.info, sig: sig}
+	if mods := ex.modified([]ast.Node{lit.Body}, e.st); len(mods) > 0 {
+		e.unsupp(lit, "function literal %d assigns captured variables", ord)
+	}
+	call := e.st.clone()
+	call.pc = fx.name(sortBool, "pc", e.st.pc)
+	var pnames []string
+	pvals := map[string]Val{}
+	for _, f := range lit.Type.Params.List {
+		for _, id := range f.Names {
+			obj := e.info.Defs[id]
+			v := fx.fresh(obj.Type(), "cl_"+id.Name)
+			for _, rt := range refTermsOf(v) {
+				fx.emit("(assert (<= " + rt + " " + fx.allocTerm(call) + "))")
+			}
+			call.env[obj] = v
+			pnames = append(pnames, id.Name)
+			pvals[id.Name] = v
+		}
+	}
+	if len(pnames) != len(cc.Params) {
+		panic(contractDrift{fmt.Sprintf("closure %d of %s: the contract lists %d parameters, the code has %d", ord, fx.key, len(cc.Params), len(pnames))})
+	}
+	for i := range pnames {
+		if pnames[i] != cc.Params[i] {
+			panic(contractDrift{fmt.Sprintf("closure %d of %s: the contract names parameter %d %q, the code %q", ord, fx.key, i+1, cc.Params[i], pnames[i])})
+		}
+	}
+	clEv := func(st *State, results []Val) *Ev {
+		ce := fx.clauseEv(st, lit.Body.Lbrace+1, nil)
+		inner := ce.lookup
+		ce.lookup = func(name string) (Val, bool) {
+			if v, ok := pvals[name]; ok {
+				return v, true
+			}
+			for i, rn := range cc.Results {
+				if rn == name && results != nil && i < len(results) {
+					return results[i], true
+				}
+			}
+			return inner(name)
+		}
+		return ce
+	}
+	for _, rq := range cc.Requires {
+		ce := clEv(call, nil)
+		fx.assume(call.pc, ce.boolOf(ce.ev(rq.Expr), rq.Expr))
+	}
+	flow := ex.block(lit.Body.List, call)
+	for _, r := range flow.rets {
+		for i, en := range cc.Ensures {
+			lbl := en.Label
+			if lbl == "" {
+				lbl = fmt.Sprintf("ensures%d", i+1)
+			}
+			ce := clEv(r.st, r.vals)
+			t := ce.boolOf(ce.ev(en.Expr), en.Expr)
+			fx.obligeSplit("post", fmt.Sprintf("closure%d.post.%s@ret%d", ord, lbl, r.ord), r.pos, r.st.pc, t, "closure postcondition: "+en.Text)
+		}
+	}
+}
